@@ -41,7 +41,7 @@ inline std::vector<Ev>* g_events = nullptr;
 inline thread_local std::uint64_t tl_call_inv = 0;
 inline void event_sink(int ev, const void* obj, std::uint64_t a, std::uint64_t b) {
     if (g_events == nullptr) { return; }
-    if (ev == yv::EV_PERM_STORE) { return; }
+    if (ev == yv::EV_PERM_STORE || ev >= yv::EV_LOCK_ACQ) { return; }
     int th = sched::tl_self != nullptr ? sched::tl_self->id : -1;
     // events are emitted by the running logical thread (or, outside a scheduled region, by one thread at a time)
     g_events->push_back(Ev{sched::Scheduler::get().now(), ev, obj, a, b, th, tl_call_inv});
